@@ -9,8 +9,10 @@ Import ListNotations.
 Open Scope Z_scope.
 
 (* every schema (any number of columns whose header fits the u16 header length), every row of
-   values that fits it (fits_row: each value is of the column's type and width, variable bytes
-   total below 2^16), outside the three recorded defect classes: a new builder builds a
+   values that fits it (fits_row: each value is of the column's type and width - for a Float4
+   column the Float must be an exact zero/infinite/normal f32 value - and variable bytes total
+   below 2^16), outside the one recorded defect class (a 17-byte 0xFE-led Blob in a Blob
+   column): a new builder builds a
    record - no step panics or errs - and extract_row_from_record returns exactly the row,
    NULLs included *)
 Theorem record_roundtrip :
@@ -22,7 +24,7 @@ Proof. exact record_roundtrip_l. Qed.
 Theorem schema_ok_upto_64 : forall s, (length s <= 64)%nat -> schema_ok s = true.
 Proof. exact schema_ok_upto_64_l. Qed.
 
-(* the all-NULL row of every schema round-trips (no defect class applies) *)
+(* the all-NULL row of every schema round-trips (the defect class does not apply) *)
 Theorem record_null_roundtrip :
   forall s, schema_ok s = true ->
     exists bytes, build_fresh s (repeat VNull (length s)) = Ok bytes /\
@@ -43,30 +45,42 @@ Proof. exact reset_idempotent_l. Qed.
 
 (* record size = 2 + null bitmap + 2 per variable column + fixed area + variable bytes *)
 Theorem record_size_formula :
-  forall s row bytes, schema_ok s = true -> fits_row s row = true -> has_float4 s row = false ->
+  forall s row bytes, schema_ok s = true -> fits_row s row = true ->
     build_fresh s row = Ok bytes ->
     blen bytes = 2 + bitmap_size (ncols s) + 2 * nvar s + total_fixed s + total_var s row.
 Proof. exact record_size_formula_l. Qed.
 
-(* the three recorded defect classes really break the round trip (witnesses evaluated on the
-   model; the same rows are run on the real code on every check) *)
+(* the recorded defect class really breaks the round trip (witness evaluated on the model; the
+   same row is run on the real code on every check) *)
 Theorem record_roundtrip_refuted :
-  (exists s row, schema_ok s = true /\ fits_row s row = true /\ known_class s row = 1 /\ ~ roundtrip_ok s row) /\
-  (exists s row, schema_ok s = true /\ fits_row s row = true /\ known_class s row = 2 /\ ~ roundtrip_ok s row) /\
-  (exists s row, schema_ok s = true /\ fits_row s row = true /\ known_class s row = 3 /\ ~ roundtrip_ok s row).
+  exists s row, schema_ok s = true /\ fits_row s row = true /\ known_class s row = 3 /\ ~ roundtrip_ok s row.
 Proof. exact roundtrip_refuted_l. Qed.
+
+(* historical: the witnesses of the two repaired defects (F-C31-1 empty strings read as NULL,
+   F-C31-2 Float4 written as 8 bytes) fit, are in no class, and round-trip *)
+Example c31_fixed_witnesses :
+  (fits_row [TText] [VText []] = true /\ known_class [TText] [VText []] = 0 /\
+   build_fresh [TText] [VText []] = Ok [5; 0; 0; 0; 0] /\ extract [TText] [5; 0; 0; 0; 0] = Ok [VText []]) /\
+  (fits_row [TFloat4; TInt8] [VFloat 4609434218613702656; VInt 3] = true /\
+   build_fresh [TFloat4; TInt8] [VFloat 4609434218613702656; VInt 3]
+     = Ok [3; 0; 0; 0; 0; 192; 63; 3; 0; 0; 0; 0; 0; 0; 0] /\
+   extract [TFloat4; TInt8] [3; 0; 0; 0; 0; 192; 63; 3; 0; 0; 0; 0; 0; 0; 0]
+     = Ok [VFloat 4609434218613702656; VInt 3]).
+Proof. vm_compute. repeat split. Qed.
 
 (* non-vacuity: a mixed schema and row meeting every hypothesis, the record it produces, and a
    reused builder (which first built a row that does not fit) producing the same bytes *)
-Definition ex_s : schema := [TInt4; TText; TBool; TFloat8; TBlob; TInt2].
+Definition ex_s : schema := [TInt4; TText; TBool; TFloat8; TBlob; TInt2; TFloat4].
 Definition ex_row : list value :=
-  [VInt (-7); VText [104; 105]; VNull; VFloat 4609434218613702656; VBlob [1; 2; 3]; VNull].
+  [VInt (-7); VText [104; 105]; VNull; VFloat 4609434218613702656; VBlob [1; 2; 3]; VNull;
+   VFloat 13832806255468478464 (* -1.5 *)].
 Definition ex_bytes : list Z :=
-  [7; 0; 36; 2; 0; 5; 0; 249; 255; 255; 255; 0; 0; 0; 0; 0; 0; 0; 248; 63; 0; 0; 104; 105; 1; 2; 3].
+  [7; 0; 36; 2; 0; 5; 0; 249; 255; 255; 255; 0; 0; 0; 0; 0; 0; 0; 248; 63; 0; 0; 0; 0; 192; 191;
+   104; 105; 1; 2; 3].
 Example c31_witness :
   schema_ok ex_s = true /\ fits_row ex_s ex_row = true /\ known_class ex_s ex_row = 0 /\
   build_fresh ex_s ex_row = Ok ex_bytes /\ extract ex_s ex_bytes = Ok ex_row /\
-  blen ex_bytes = 2 + 1 + 2 * 2 + 15 + 5.
+  blen ex_bytes = 2 + 1 + 2 * 2 + 19 + 5.
 Proof. vm_compute. repeat split. Qed.
 Example c31_witness_reuse :
   exists st0 st1 r, fresh ex_s = Ok st0 /\
@@ -94,13 +108,11 @@ Check reuse_equals_fresh :
 Check reset_idempotent :
   forall s st, reachable s st -> reset s st = fresh s.
 Check record_size_formula :
-  forall s row bytes, schema_ok s = true -> fits_row s row = true -> has_float4 s row = false ->
+  forall s row bytes, schema_ok s = true -> fits_row s row = true ->
     build_fresh s row = Ok bytes ->
     blen bytes = 2 + bitmap_size (ncols s) + 2 * nvar s + total_fixed s + total_var s row.
 Check record_roundtrip_refuted :
-  (exists s row, schema_ok s = true /\ fits_row s row = true /\ known_class s row = 1 /\ ~ roundtrip_ok s row) /\
-  (exists s row, schema_ok s = true /\ fits_row s row = true /\ known_class s row = 2 /\ ~ roundtrip_ok s row) /\
-  (exists s row, schema_ok s = true /\ fits_row s row = true /\ known_class s row = 3 /\ ~ roundtrip_ok s row).
+  exists s row, schema_ok s = true /\ fits_row s row = true /\ known_class s row = 3 /\ ~ roundtrip_ok s row.
 
 Print Assumptions record_roundtrip.
 Print Assumptions schema_ok_upto_64.
